@@ -156,3 +156,16 @@ PROPS["C14"] = dict(
                 "is_finished() is unconstrained (= every completion schedule and every placement of polls): exactly a prefix of the queue is consumed (FIFO, no loss, no duplication) and join() is "
                 "only reached for terminated threads (never blocks).",
 )
+
+PROPS["C13"] = dict(
+    units=["composite"],
+    trusted_base=COMMON_TRUST + [
+        "HalfBlock::from / Buffer::make_solid_color (font-table lookup + count_ones) is an uninterpreted function `solid` of (font table, transparent cell, underlying cell): assumed deterministic in exactly these arguments",
+        "S6 axioms for Into<Position>; layer offsets and query positions within +-2^29 (Position subtraction does not overflow)",
+    ],
+    unverified_remainder=["the laws are proved for overlay-free stacks (overlay_layer is None); the overlay step itself is part of the refinement proof of get_char",
+                          "LAW 3 is proved in its exact form: an empty alpha layer leaves its default font page behind (only the font page of a final default cell can show it) - the informal 'never changes any displayed cell' holds up to that font page"],
+    explanation="Buffer::get_char (all 13 return paths) is proved equal to the recursive top-down definition comp(stack, pos); the stacking laws are lemmas on comp proved by induction on the stack: "
+                "hidden or non-covering layers are removable (lemma_skip_layer), empty alpha cells pass through (lemma_empty_alpha_layer), an opaque layer hides everything beneath (lemma_opaque_hides), "
+                "translation invariance (lemma_translate), locality (lemma_comp_local).",
+)
